@@ -144,3 +144,24 @@ impl<S: Send + Sync> From<S> for MemCase<S> {
         MemCase::encase(s)
     }
 }
+
+/// Verification hook (compiled only with `--cfg epserde_verif`): the kind
+/// (0 = none, 1 = heap memory, 2 = `mmap()`) and byte range of the backing region.
+#[cfg(epserde_verif)]
+impl<S> MemCase<S> {
+    #[doc(hidden)]
+    pub fn __verif_backend(&self) -> (u8, *const u8, usize) {
+        match &self.1 {
+            MemBackend::None => (0, core::ptr::null(), 0),
+            MemBackend::Memory(_) => {
+                let s = self.1.as_ref().unwrap();
+                (1, s.as_ptr(), s.len())
+            }
+            #[cfg(feature = "mmap")]
+            MemBackend::Mmap(_) => {
+                let s = self.1.as_ref().unwrap();
+                (2, s.as_ptr(), s.len())
+            }
+        }
+    }
+}
